@@ -51,6 +51,9 @@ func (m *vStubAM) Update(a hotline.Account, newLogin string) error {
 }
 func (m *vStubAM) Get(login string) *hotline.Account {
 	m.getCalls = append(m.getCalls, login)
+	if m.getResult == nil || m.getResult.Login != login {
+		return nil
+	}
 	return m.getResult
 }
 func (m *vStubAM) List() []hotline.Account {
@@ -231,15 +234,20 @@ func vStub_os_ReadFile(name string) ([]byte, error) {
 	return nil, os.ErrNotExist
 }
 
+var c20Marshalled []byte
+
 // yaml contract (engine-only): Marshal returns some non-empty byte string (documents are never empty).
 func vStub_yaml_Marshal(in interface{}) ([]byte, error) {
 	b := vBytes("yaml.doc", 400)
 	vAssume(len(b) >= 1)
+	c20Marshalled = b
 	return b, nil
 }
 
 // *os.File as used by the account manager: create-exclusive, write, close.
 var vOpenFiles = map[*os.File]string{}
+var vOpenPos = map[*os.File]int{}
+var vOpenAppend = map[*os.File]bool{}
 
 func vStub_os_OpenFile(name string, flag int, perm os.FileMode) (*os.File, error) {
 	if flag&os.O_CREATE != 0 {
@@ -256,22 +264,36 @@ func vStub_os_OpenFile(name string, flag int, perm os.FileMode) (*os.File, error
 	}
 	f := new(os.File)
 	vOpenFiles[f] = name
+	vOpenPos[f] = 0
+	vOpenAppend[f] = flag&os.O_APPEND != 0
 	return f, nil
 }
 
 func vStub_os_File_Write(f *os.File, b []byte) (int, error) {
 	name := vOpenFiles[f]
-	i := vfs.find(name)
 	var cur []byte
-	if i >= 0 {
-		cur = vfs.data[i]
+	for i := range vfs.names {
+		if vfs.names[i] == name {
+			cur = vfs.data[i]
+		}
 	}
-	nd := append(append([]byte(nil), cur...), b...)
+	pos := vOpenPos[f]
+	if vOpenAppend[f] {
+		pos = len(cur)
+	}
+	// bytes before pos are kept, b is written at pos, anything of the old content beyond pos+len(b) stays
+	nd := append(append([]byte(nil), cur[:pos]...), b...)
+	if pos+len(b) < len(cur) {
+		nd = append(nd, cur[pos+len(b):]...)
+	}
+	vOpenPos[f] = pos + len(b)
 	if err := vfsDo(vFSOp{kind: "append", name: name, data: nd, to: ""}); err != nil {
 		return 0, err
 	}
 	return len(b), nil
 }
+
+func vStub_os_File_Sync(f *os.File) error { return nil }
 
 func vStub_os_File_Close(f *os.File) error { return nil }
 
